@@ -66,7 +66,8 @@ def tagged_cases(draw) -> t.Any:
         if draw(st.integers(0, 5)) == 5:
             opts['allow_extra'] = True
         variants.append({'name': f"Var{i}", 'fields': fields, 'opts': opts})
-    spec = ('tagged', layout, tag, tuple(variants))
+    conds = draw(st.sampled_from([(), (), (('true',),), (('true',), ('true',))]))     # Annotated[Union, Tagged(...), Condition...]
+    spec = ('tagged', layout, tag, tuple(variants), conds)
     nd = cg.TaggedNode(spec)
     v = draw(nd.valid())
     mode = draw(st.sampled_from(['valid', 'badtag', 'valid', 'mutate', 'shape', 'cross-body', 'inserting-mapping']))
